@@ -218,7 +218,7 @@ def check_lambda(rep, h):
         return
     dsts, srcs = set(), set()
     why = None
-    dst_base = None
+    dst_base = src_base = None
     covered = 0
     for st in sorted(comp, key=lambda x: relayout_const(x.off)):
         c, terms = split(st.off)
@@ -238,6 +238,7 @@ def check_lambda(rep, h):
         dsts.add(terms[0][1])
         srcs.add(sterms[0][1])
         dst_base = st.base
+        src_base = srcp[1]
         if st.base == srcp[1]:
             why = "source and destination buffers are the same object"
         covered += nbytes
@@ -245,6 +246,8 @@ def check_lambda(rep, h):
         why = "the copy transfers %d bytes per index tuple, an element has %d" % (covered, M * sz)
     if why is None and any(st.base == dst_base for st in other):
         why = "the destination buffer is also written with something that was not read from the source (%s)" % ir.show(other[0].val)[:60]
+    if why is None and any(st.base == src_base for st in other):
+        why = "the copy writes into the source's storage"
     if why is None and other:
         state = {st.base for st in other}
         if any(a[0] == 'ld' and (a[1] in state or ('mem', a) in state) for d_ in dsts | srcs for a in ir.atoms(('x', d_))):
